@@ -105,3 +105,99 @@ pub fn replay(v: &Value) -> Result<(), String> {
         _ => Err("unknown directed case".into()),
     }
 }
+
+// ---------------------------------------------------------------------------------------
+// builder histories: whatever sequence of place / rejected place / remove / turn / marker /
+// clock calls led to an accepted board, that board must be identical to the parser's board
+// for the same position (==, hash, text, debug forms)
+
+use crate::c06::{read_back, BOp};
+use proptest::prelude::*;
+
+#[derive(Clone, Debug, serde::Serialize, serde::Deserialize)]
+pub struct BuilderCase {
+    pub wk: u8,
+    pub bk: u8,
+    pub ops: Vec<BOp>,
+}
+
+pub fn builder_strategy() -> impl Strategy<Value = BuilderCase> {
+    // squares are drawn from a narrow range half of the time so that placements collide
+    // with occupied squares (rejected by the builder) and removals hit pieces
+    let sq = prop_oneof![1 => any::<u8>(), 1 => 0u8..20];
+    let op = prop_oneof![
+        8 => (any::<u8>(), sq.clone()).prop_map(|(c, s)| BOp::Place(c, s)),
+        3 => sq.prop_map(BOp::Remove),
+        1 => any::<bool>().prop_map(BOp::Turn),
+        1 => prop::option::of(0u8..8).prop_map(BOp::Ep),
+        1 => (0u16..=9999).prop_map(BOp::Half),
+        1 => (0u16..=9999).prop_map(BOp::Full),
+    ];
+    (any::<u8>(), any::<u8>(), prop::collection::vec(op, 0..30)).prop_map(|(wk, bk, ops)| BuilderCase { wk, bk, ops })
+}
+
+pub fn builder_case(c: &BuilderCase, st: &mut Stats) -> Result<(), String> {
+    let mut b = Board::builder();
+    let mut rejected = 0;
+    let mut removed = 0;
+    let _ = b.place(sq(c.wk % 64), bb::Color::White, bb::Piece::King);
+    if b.place(sq(c.bk % 64), bb::Color::Black, bb::Piece::King).is_err() {
+        rejected += 1;
+    }
+    for op in &c.ops {
+        match op {
+            BOp::Place(code, s) => {
+                let col = if code & 1 == 0 { bb::Color::White } else { bb::Color::Black };
+                let p = [bb::Piece::Pawn, bb::Piece::Pawn, bb::Piece::Knight, bb::Piece::Bishop, bb::Piece::Rook, bb::Piece::Queen][((code >> 1) % 6) as usize];
+                if b.place(sq(*s % 64), col, p).is_err() {
+                    rejected += 1;
+                }
+            }
+            BOp::Remove(s) => {
+                b.remove(sq(*s % 64));
+                removed += 1;
+            }
+            BOp::Turn(x) => {
+                b.turn(if *x { bb::Color::Black } else { bb::Color::White });
+            }
+            BOp::Ep(f) => {
+                b.enpassant(f.map(|f| bb::File::from_u8(f % 8).unwrap()));
+            }
+            BOp::Half(x) => {
+                b.half_move_clock(*x);
+            }
+            BOp::Full(x) => {
+                b.full_move_clock(*x);
+            }
+        }
+    }
+    let Ok(board) = b.build() else {
+        st.class("builder history: rejected by validation");
+        return Ok(());
+    };
+    let p = read_back(&board).map_err(|e| format!("C05 builder board: {e}"))?;
+    let text = p.fen();
+    if board.to_string() != text {
+        return Err(format!("C05 builder board prints `{board}` but its squares/fields read back as `{text}`"));
+    }
+    let parsed: Board = text.parse().map_err(|e| format!("C05 the text `{text}` of a board accepted by the builder is rejected by the parser: {e:?}"))?;
+    same_board(&parsed, &board, &format!("parser vs builder history ({rejected} rejected placement(s), {removed} removal(s))"))?;
+    let (pa, pb) = (format!("{parsed:#?}"), format!("{board:#?}"));
+    if pa != pb {
+        return Err(format!("C05 alternate debug rendering differs between parser and builder for `{text}`"));
+    }
+    if gen_moves(&parsed) != gen_moves(&board) {
+        return Err(format!("C05 legal moves differ between parser and builder board for `{text}`"));
+    }
+    st.eval(1);
+    st.class("builder history: accepted and compared with the parser");
+    if rejected > 0 {
+        st.class("builder history with a rejected placement");
+    }
+    if rejected > 0 || removed > 0 {
+        if st.nontrivial(digest(&(text.clone(), rejected, removed))) && st.want_sample() {
+            st.sample(json!({"builder_history": format!("{:?}", c.ops).chars().take(300).collect::<String>(), "fen": text}));
+        }
+    }
+    Ok(())
+}
